@@ -59,7 +59,8 @@ GoEqPanics(a, b) == a.t = b.t /\ Uncomparable(a)
 \* identity, built-in errors only as "some built-in error".  Model level
 \* (drift detection): the exact kind.
 BuiltinKinds == {"count", "type", "div0", "exec", "cond", "count:boolop", "type:boolop",
-                 "dne", "other", "nil"}
+                 "dne", "other", "nil", "wide", "err", "some"}
+IsWide(x) == x.t = "e" /\ x.v = "wide"
 IsSentinel(x) == IsErr(x) /\ x.v \notin BuiltinKinds
 
 \* Property-level equality of two outcomes (value, DNE or error).
